@@ -209,7 +209,7 @@ def ctrl_forms(rng, c):
     return forms[int(rng.integers(0, len(forms)))]
 
 
-FORMS = ['plain', 'plain', 'strided', 'fortran-op', 'real', 'int', 'complex64', 'int-op']
+FORMS = ['plain', 'strided', 'fortran-op', 'real', 'int', 'complex64', 'int-op', 'real-state', 'float32-state', 'int-state', 'real-op']
 
 
 def arg_form(rng, psi, U, force=None):
@@ -219,6 +219,10 @@ def arg_form(rng, psi, U, force=None):
     form = force or FORMS[int(rng.integers(0, len(FORMS)))]
     if form in ('real', 'int', 'int-op'):
         psi, U = psi.real.copy(), U.real.copy()
+    elif form in ('real-state', 'float32-state', 'int-state'):
+        psi = psi.real.copy()          # real / integer dtype state, complex operator: the result must be upcast
+    elif form == 'real-op':
+        U = U.real.copy()
     psi_v, U_v = psi.astype(np.complex128), U.astype(np.complex128)
     if form == 'strided':
         big = np.zeros((2,) + psi.shape, dtype=np.complex128).reshape(-1)
@@ -241,9 +245,29 @@ def arg_form(rng, psi, U, force=None):
         psi_a, U_a = psi_v.copy(), U.real.astype(np.int32)
     elif form == 'complex64':
         psi_a, U_a = psi_v.astype(np.complex64), U_v.astype(np.complex64)
+    elif form == 'real-state':
+        psi_a, U_a = psi.real.astype(np.float64), U_v.copy()
+    elif form == 'float32-state':
+        psi_a, U_a = psi.real.astype(np.float32), U_v.copy()
+    elif form == 'int-state':
+        psi_a, U_a = psi.real.astype(np.int64), U_v.copy()
+    elif form == 'real-op':
+        psi_a, U_a = psi_v.copy(), U.real.astype(np.float64)
     else:
         psi_a, U_a = psi_v.copy(), U_v.copy()
     return form, psi_v, U_v, psi_a, U_a
+
+
+STATE_DTYPES = [None, None, np.float64, np.int64, np.float32]
+
+
+def state_form(rng, psi):
+    """(values, array as handed over): the state as complex128, or — real parts only — as float64 / int64 / float32"""
+    dt = STATE_DTYPES[int(rng.integers(0, len(STATE_DTYPES)))]
+    if dt is None:
+        return psi.astype(np.complex128), psi.astype(np.complex128), 'complex128'
+    v = psi.real.astype(np.complex128)
+    return v, psi.real.astype(dt), np.dtype(dt).name
 
 
 def gate_cases(ctx, rng):
@@ -300,14 +324,15 @@ def gate_cases(ctx, rng):
     # chained calls: the array returned by one call is the input of the next and must still hold its value afterwards
     for _ in range(40 if ctx.quick() else 300):
         n = int(rng.integers(1, 5))
-        psi = rand_gi(rng, 2 ** n, -2, 2)
+        psi, psi_a, sdt = state_form(rng, rand_gi(rng, 2 ** n, -2, 2))
+        ctx.count('state-dtype:' + sdt)
         links = []
         for _ in range(int(rng.integers(2, 5))):
             k = int(rng.integers(1, min(n, 2) + 1))
             q = [int(x) for x in rng.permutation(n)]
             t, c = tuple(q[:k]), tuple(sorted(q[k:k + int(rng.integers(0, n - k + 1))]))
             links.append((rand_op(rng, k, 'sparse' if rng.integers(0, 2) else 'unitary'), c, t))
-        def chain(psi=psi, links=links):
+        def chain(psi=psi_a, links=links):
             cur, hist = psi, []
             for U, c, t in links:
                 nxt = st.apply_control_n_gate(cur, U, set(c), t) if c else st.apply_gate(cur, U, t)
@@ -392,7 +417,8 @@ def inner_cases(ctx, rng):
     cases = []
     for _ in range(40 if ctx.quick() else 1000):
         n = int(rng.integers(1, 7))
-        psi0, psi1 = rand_gi(rng, 2 ** n, -2, 2), rand_gi(rng, 2 ** n, -2, 2)
+        psi0, psi0_a, _ = state_form(rng, rand_gi(rng, 2 ** n, -2, 2))
+        psi1, psi1_a, sdt = state_form(rng, rand_gi(rng, 2 ** n, -2, 2))
         nf = int(rng.integers(1, 4))
         term, steps = [], []
         for _ in range(nf):
@@ -408,7 +434,7 @@ def inner_cases(ctx, rng):
                 M = M @ oracle_embed(f[0], f[1:], n)
             return np.vdot(psi0, M @ psi1).reshape(1)
         cases.append(Case(f'C03 inner Z {n} {enc_z(psi0)} {enc_z(psi1)} {"|".join(steps)}',
-                          (lambda psi0=psi0, psi1=psi1, term=term: st.inner_product_psi0_O_psi1(psi0, psi1, [term])),
+                          (lambda psi0=psi0_a, psi1=psi1_a, term=term: st.inner_product_psi0_O_psi1(psi0, psi1, [term])),
                           oracle, key='inner_product_psi0_O_psi1', ntkey=('inner', n, nf, tuple(f[1:] for f in term)),
                           replay=dict(fn='inner_product_psi0_O_psi1', n=n, psi0=repr(psi0.tolist()), psi1=repr(psi1.tolist()),
                                       term=repr([(f[0].tolist(),) + f[1:] for f in term]))))
@@ -1068,15 +1094,15 @@ def program_cases(rng, steps, sem, n, width, it, with_indices=False):
         is_int = program_is_integer(sem)
         enc = enc_z if is_int else enc_q
         ring = 'Z' if is_int else 'Q'
-        psi = rand_gi(rng, 2 ** n, -2, 2)
+        psi, psi_a, sdt = state_form(rng, rand_gi(rng, 2 ** n, -2, 2))
         text = program_text(sem, enc)
         desc = describe(steps)
         kinds = tuple(sorted({s[0] for s in steps}))
         cases.append(Case(f'C03 circ {ring} {n} {text} {enc(psi)}',
-                          (lambda steps=steps, psi=psi: build_circuit(steps).apply_state(psi)),
+                          (lambda steps=steps, psi=psi_a: build_circuit(steps).apply_state(psi)),
                           (lambda sem=sem, n=n, psi=psi: oracle_program_matrix(sem, n) @ psi),
                           approx=not is_int, key='Circuit.apply_state', ntkey=('circ', ring, n, kinds, it),
-                          replay=dict(fn='Circuit.apply_state', n=n, program=repr(desc), psi=repr(psi.tolist()))))
+                          replay=dict(fn='Circuit.apply_state', n=n, program=repr(desc), psi=repr(psi.tolist()), state_dtype=sdt)))
         if width <= (5 if is_int else 4):
             cases.append(Case(f'C03 unitary {ring} {text}',
                               (lambda steps=steps: (lambda U: np.concatenate([[U.shape[0].bit_length() - 1], U.reshape(-1)]))(build_circuit(steps).to_unitary())),
@@ -1526,6 +1552,25 @@ def corpus_cases(ctx):
     for f in sorted(glob.glob(os.path.join(common.VERIF, 'corpus', 'C03', '*.json'))):
         for i, e in enumerate(json.load(open(f))['entries']):
             n = e['n']
+            if e['kind'] in ('apply_control_n_gate', 'circuit-controlled'):
+                st_ = numqi.sim.state
+                U = np.array(_cx(e['U']), dtype=np.complex128)
+                psi_v = np.array(_cx(e['psi']), dtype=np.complex128)
+                psi_a = psi_v.real.astype(np.dtype(e['dtype']))
+                c, t = tuple(e['control']), tuple(e['target'])
+                rp = dict(n=n, control=list(c), target=list(t), op=repr(U.tolist()), psi=repr(psi_v.tolist()), state_dtype=e['dtype'], corpus=os.path.basename(f))
+                ctx.count('corpus')
+                if e['kind'] == 'apply_control_n_gate':
+                    impl = (lambda psi=psi_a, U=U, c=c, t=t: st_.apply_control_n_gate(psi, U, set(c), t))
+                else:
+                    def impl(psi=psi_a, U=U, c=c, t=t):
+                        circ = numqi.sim.Circuit()
+                        circ.controlled_single_qubit_gate(U, set(c), t[0]) if len(t) == 1 else circ.controlled_double_qubit_gate(U, set(c), t)
+                        return circ.apply_state(psi)
+                cases.append(Case(f'C03 ctrl Z {n} {idx_str(c)} {idx_str(t)} {enc_z(U)} {enc_z(psi_v)}', impl,
+                                  (lambda psi=psi_v, U=U, c=c, t=t, n=n: oracle_ctrl(U, c, t, n) @ psi),
+                                  key='apply_control_n_gate', ntkey=('corpus', os.path.basename(f), i), replay=dict(fn='apply_control_n_gate', **rp)))
+                continue
             idx = eval(e['index'], {'__builtins__': {}}, {})
             t = (idx,) if isinstance(idx, int) else tuple(idx)
             U = np.array(_cx(e['U']), dtype=np.complex128); rho = np.array(_cx(e['rho']), dtype=np.complex128)
